@@ -234,6 +234,6 @@ func runC08(ctx *core.Ctx) {
 	add("SetBytesWithClamping", lengthCases(32))
 	subC08.RunList(ctx, cases)
 	if ctx.DistinctCount("accept") != 2 {
-		core.InternalError("C08: vacuous accept/reject coverage")
+		ctx.Vacuous("C08: vacuous accept/reject coverage")
 	}
 }
